@@ -1,17 +1,43 @@
 (** Extraction of the executable models for the correspondence checks.
     ExtrOcamlBasic only: bool/list/option/prod/unit/sumbool -> OCaml's; Z, N, positive, nat, ascii,
-    string stay extracted inductives.  No Extract Constant / Extract Inductive of our own. *)
+    string stay extracted inductives.  No Extract Constant / Extract Inductive of our own.
+    Every function the OCaml driver calls is re-exported under a unique mx_ name (extraction renames clashing identifiers). *)
 From Coq Require Import ZArith List Bool String.
 From Coq Require Extraction ExtrOcamlBasic.
 From Mx Require ModInt Expr Simp EvalAbs X86Types X86Dis Ppc Wf.
 From MxGen Require X86Tables PpcTables.
 Extraction Language OCaml.
-Extraction "model.ml" ModInt.binop_apply ModInt.unop_apply ModInt.cmp_apply ModInt.in_rangeb
-  BinInt.Z.add BinInt.Z.mul BinInt.Z.opp BinInt.Z.of_nat BinInt.Z.div BinInt.Z.modulo BinInt.Z.eqb BinInt.Z.ltb
-  Expr.size Expr.eval Expr.expr_eqb Expr.hash Expr.copy Expr.visit Expr.replace_expr Expr.canonize
-  Expr.get_r Expr.get_w Expr.get_expr_ids Expr.match_expr Expr.key_expr Expr.key_cmp
-  Simp.simp Simp.simp1
-  EvalAbs.eval_expr EvalAbs.eval_instr EvalAbs.simpF EvalAbs.pool_set
-  X86Dis.dis X86Dis.flow_flags X86Dis.getnextflow X86Dis.getdstflow X86Tables.x86_tables
-  Ppc.claimants Ppc.reencode PpcTables.ppc_classes
-  Wf.violated.
+Definition mx_binop_apply := ModInt.binop_apply.
+Definition mx_unop_apply := ModInt.unop_apply.
+Definition mx_cmp_apply := ModInt.cmp_apply.
+Definition mx_norm := ModInt.norm.
+Definition mx_size := Expr.size.
+Definition mx_eval := Expr.eval.
+Definition mx_expr_eqb := Expr.expr_eqb.
+Definition mx_copy := Expr.copy.
+Definition mx_visit := Expr.visit.
+Definition mx_replace_expr := Expr.replace_expr.
+Definition mx_canonize := Expr.canonize.
+Definition mx_get_r := Expr.get_r.
+Definition mx_get_w := Expr.get_w.
+Definition mx_get_expr_ids := Expr.get_expr_ids.
+Definition mx_match_expr := Expr.match_expr.
+Definition mx_key_expr := Expr.key_expr.
+Definition mx_key_cmp := Expr.key_cmp.
+Definition mx_simp := Simp.simp.
+Definition mx_simp1 := Simp.simp1.
+Definition mx_eval_expr := EvalAbs.eval_expr.
+Definition mx_eval_instr := EvalAbs.eval_instr.
+Definition mx_simpF := EvalAbs.simpF.
+Definition mx_pool_set := EvalAbs.pool_set.
+Definition mx_dis := X86Dis.dis.
+Definition mx_flow_flags := X86Dis.flow_flags.
+Definition mx_getnextflow := X86Dis.getnextflow.
+Definition mx_getdstflow := X86Dis.getdstflow.
+Definition mx_x86_tables := X86Tables.x86_tables.
+Definition mx_claimants := Ppc.claimants.
+Definition mx_reencode := Ppc.reencode.
+Definition mx_ppc_classes := PpcTables.ppc_classes.
+Definition mx_violated := Wf.violated.
+Extraction "model.ml" mx_binop_apply mx_unop_apply mx_cmp_apply mx_norm mx_size mx_eval mx_expr_eqb mx_copy mx_visit mx_replace_expr mx_canonize mx_get_r mx_get_w mx_get_expr_ids mx_match_expr mx_key_expr mx_key_cmp mx_simp mx_simp1 mx_eval_expr mx_eval_instr mx_simpF mx_pool_set mx_dis mx_flow_flags mx_getnextflow mx_getdstflow mx_x86_tables mx_claimants mx_reencode mx_ppc_classes mx_violated
+  BinInt.Z.add BinInt.Z.mul BinInt.Z.opp BinInt.Z.div BinInt.Z.modulo.
